@@ -11,6 +11,8 @@ from vf import gen
 
 ID = "C15"
 TITLE = "Periodic and Mahalanobis distances obey the metric laws under minimum image"
+TECHNIQUE = 'Hypothesis PBT against a brute-force minimum-image oracle plus metric-law and metamorphic relations'
+LEVEL = 'Generated-input exploration: thousands of point sets per run are judged against an independent fractional-reduction oracle and the metric laws (symmetry, triangle inequality over all triples, bounds, squared flag, sklearn equality, rejection of a mismatched cell). No absence claim: strength = the counted distinct non-trivial cases in the evidence.'
 BUDGET = {"quick": 1200, "thorough": 25000}
 RULE = ("Cases: dimension 1..6, 1..7 x 1..7 points (thorough: up to 16), anisotropic cell "
         "sides e^[-2,2]; coordinates either seeded-uniform up to 1e4 cell lengths away or "
